@@ -6,23 +6,29 @@ Three parts.
    `abs_to_rel` / `rel_to_abs` / `abs_to_rel_tuple` / `rel_to_abs_tuple` of modelx/core/util.py on
    generated paths (branches that diverge and share a name again at the same depth, ItemSpace argument
    tuples, and a malformed stream for the readers: too many dots, empty tuples, first element not a run
-   of dots, empty names), and the docstring writer/reader model against Python's own tokenizer on
-   `'\"\"\"' + doc + '\"\"\"'`.
+   of dots, empty names); `quote_docstring` of modelx/core/formula.py against the model's `quoteDocstring`
+   (every key of the escape table, runs of 1..7 quotes at the start / in the middle / at the end, backslashes
+   before quotes, non-ASCII, random), the model's tokenizer and escape decoder against Python's own on
+   arbitrary triple-quoted texts, and the line re-join against `"\n".join(text.splitlines())`.
 2. The property itself on the two codecs, evaluated on the implementation alone (round trip of every
-   generated path; `ast.literal_eval` of the written docstring).
+   generated path; Python's reading of `quote_docstring(doc)` as a token, as a module docstring and as the
+   docstring of a def that went through the `Formula` constructor must give back `doc` - for the def up to
+   the whitespace-only lines that `textwrap.dedent` empties in every def source, see `doc_oracle`).
 3. The main oracle, implementation only: models built through the public API from a vocabulary
    (`gen_program`), written to a directory AND to a zip, read back, compared by a complete canonical
    description and by the values of all cells; directory listing and bytes against the zip members;
    writing leaves everything but `model.path` alone; write-read-write chains.
 
-Defects of the unchanged tree are predicted field by field (`predict`): a field that differs after
-reading is a *known finding* only if it is exactly what the recorded defect produces, everything else
-is a violation.
+Defects of the unchanged tree that are still there are predicted field by field (`predict`): a field
+that differs after reading is a *known finding* only if it is exactly what the recorded defect produces,
+everything else is a violation.  Repaired defects (docstring quoting 2b72506, lambda cells flags 2afb524)
+are not predicted any more: their witnesses in corpus/C04/fixed-*.json run first and must round-trip.
 """
 import ast
 import io
 import json
 import os
+import re
 import shutil
 import tempfile
 import tokenize
@@ -34,6 +40,7 @@ from ..impl import mx, close_all, quiet, err_kind
 
 from modelx.core.util import abs_to_rel, rel_to_abs, abs_to_rel_tuple, rel_to_abs_tuple  # noqa: E402
 from modelx.core.base import Interface  # noqa: E402
+from modelx.core.formula import quote_docstring, Formula  # noqa: E402
 
 SECTION_DIVIDER = "# " + "-" * 75
 
@@ -64,9 +71,18 @@ CELLS_NAMES = ["foo", "foo2", "rate", "rate_adj", "bar", "ba", "fo", "g1", "h"]
 REF_NAMES = ["k", "k2", "t", "tr", "ta", "lit", "obj", "sp", "lst", "pt", "mod"]
 MREF_NAMES = ["gk", "gobj", "glit"]
 
-SAFE_DOCS = ["ab", "line1\nline2", "\"quoted\" text", "it's", "two \"\" quotes", " lead", "trail ",
-             "\u00e9\u2603", "regex \\d+ \\w", "tab\there", "# not a comment", "x = 1", "\"starts with a quote",
-             "multi\n\n\nblank", "", "ends with 'single'", "percent %s %d"]
+DOCS = ["ab", "line1\nline2", "\"quoted\" text", "it's", "two \"\" quotes", " lead", "trail ",
+        "\u00e9\u2603", "regex \\d+ \\w", "tab\there", "# not a comment", "x = 1", "\"starts with a quote",
+        "multi\n\n\nblank", "", "ends with 'single'", "percent %s %d",
+        # what the un-escaped writer lost before 2b72506
+        "ends with a \"", "\"", "has \"\"\" inside", "two at the end \"\"", "x\"\"\"\n\"\"\"y", "\"\"\"\"\"\"\"",
+        "a\\nb", "C:\\temp\\new", "ends with \\", "esc \\\" quote", "double \\\\ bs", "cont \\\nline", "\\x41",
+        "\\N{DASH}", "\\u00e9", "oct \\101", "\\'", "bs before the end \\\"", "a\rb", "a\r\nb", "\r", "\n", "nl at end\n",
+        "nul \0 inside", "\U0001F600 astral", "blank line\n \nwith a space", "a\n\t\n   \nb", " \n \n "]
+# every character at which str.splitlines splits (the Formula constructor re-joins the lines of a def)
+LINE_BOUNDARIES = ["\x0b", "\x0c", "\x1c", "\x1d", "\x1e", "\x85", "\u2028", "\u2029"]
+BOUNDARY_DOCS = ["a%sb" % c for c in LINE_BOUNDARIES] + [c for c in LINE_BOUNDARIES] + \
+    ["end%s" % c for c in LINE_BOUNDARIES] + ["all " + "|".join(LINE_BOUNDARIES) + "\r|\r\n|\n|\0|\\|\""]
 
 INT_ATOMS = ["1", "2", "7", "10"]
 
@@ -260,6 +276,16 @@ REF_KINDS = (["int"] * 5 + ["obj"] * 8 + ["str", "float", "bool", "none", "bigin
                                           "pt", "module", "func", "bytes", "shared", "shared"])
 
 
+def gen_doc(rng):
+    """a documentation string for a model, a space or a cells"""
+    r = rng.random()
+    if r < 0.6:
+        return _pick(rng, DOCS)
+    if r < 0.75:
+        return _pick(rng, BOUNDARY_DOCS)
+    return random_doc(rng)
+
+
 def gen_program(rng, size="normal"):
     """-> {"ops": [...], "cfg": {...}}; ops are applied in order through the public API"""
     max_depth = 3 if size == "normal" else 2
@@ -359,13 +385,14 @@ def gen_program(rng, size="normal"):
             body = gen_body(rng, params, ns)
             src = render_formula(rng, nm, params, body, kind, style)
             opts = {}
-            if kind == "def" and rng.random() < 0.25:
-                opts["is_cached"] = False      # lambda: known finding C04-lambda-uncached
+            if rng.random() < 0.25:
+                opts["is_cached"] = False
             if rng.random() < 0.3:
                 opts["allow_none"] = rng.choice([True, False])
             ops.append(["cells", ".".join(p), nm, src, opts])
-            if kind == "lambda" and rng.random() < 0.25:
-                ops.append(["cdoc", ".".join(p + (nm,)), _pick(rng, [d for d in SAFE_DOCS if d])])
+            if rng.random() < (0.3 if kind == "lambda" else 0.15):
+                # set_doc: stored beside a lambda, written into the source of a def (quote_docstring)
+                ops.append(["cdoc", ".".join(p + (nm,)), gen_doc(rng)])
             ns["lower"].append((nm, _arity(params)))
         if rng.random() < 0.08:
             ops.append(["cells", ".".join(p), "nof", None, {}])     # new_cells without a formula
@@ -374,12 +401,12 @@ def gen_program(rng, size="normal"):
 
     # docs and flags
     if rng.random() < 0.5:
-        ops.append(["doc", "", _pick(rng, SAFE_DOCS)])
+        ops.append(["doc", "", gen_doc(rng)])
     if rng.random() < 0.4:
         ops.append(["allow_none", "", rng.choice([True, False])])
     for p in tree:
         if rng.random() < 0.3:
-            ops.append(["doc", ".".join(p), _pick(rng, SAFE_DOCS)])
+            ops.append(["doc", ".".join(p), gen_doc(rng)])
         if rng.random() < 0.3:
             ops.append(["allow_none", ".".join(p), rng.choice([True, False, None])])
 
@@ -434,10 +461,17 @@ def gen_trigger(rng, kind):
            ["ref", b, "t", ["obj", a + "." + cn], "absolute"],
            ["input", a + "." + cn, [3], ["int", 30]]]
     if kind == "lambda-uncached":
-        ops.append(["cells", a, "unc", rng.choice(["lambda x: x * 3", "lambda: 3", "lambda x, y=1: (x +\n y)"]),
-                    {"is_cached": False}])
+        opts = {"is_cached": False}
+        if rng.random() < 0.5:
+            opts["allow_none"] = rng.choice([True, False])      # both trailers after one lambda
+        ops.append(["cells", a, "unc", rng.choice(["lambda x: x * 3", "lambda: 3", "lambda x, y=1: (x +\n y)"]), opts])
+        if rng.random() < 0.5:
+            ops.append(["cdoc", a + ".unc", gen_doc(rng)])
     elif kind == "lambda-empty-doc":
         ops.append(["cdoc", a + "." + cn, ""])
+        if rng.random() < 0.5:
+            ops.append(["cells", a, "unc", "lambda x: x", {"is_cached": False}])
+            ops.append(["cdoc", a + ".unc", ""])
     elif kind == "refmode-noninterface":
         val = gen_value(rng, rng.choice(["int", "str", "list", "module", "pt", "none"]), [a], None)
         ops.append(["ref", b, "lit", val, rng.choice(["absolute", "relative"])])
@@ -449,22 +483,35 @@ def gen_trigger(rng, kind):
         src = rng.choice(["# leading comment\n" + body, body + "\n    # comment after the last statement",
                           body + "\n# comment below", body + "\n\n\n", body + ";", body + "\n\n# c\n\n"])
         ops.append(["cells", a, "dd", src, {}])
-    elif kind in ("doc-quote", "doc-backslash", "doc-cr"):
+    elif kind in ("doc-quote", "doc-backslash", "doc-cr", "doc-line-boundary"):
+        # repaired by 2b72506 (quote_docstring); a difference after reading is a violation again
         if kind == "doc-quote":
             doc = rng.choice(["ends with a \"", "\"", "has \"\"\" inside", "two at the end \"\"", "x\"\"\"\n\"\"\"y",
-                              "a\"\"\" \"\"\"b"])
+                              "a\"\"\" \"\"\"b", "\"" * rng.randrange(1, 8), "s" + "\"" * rng.randrange(1, 8),
+                              "\"" * rng.randrange(1, 8) + "e", "m" + "\"" * rng.randrange(1, 8) + "m"])
         elif kind == "doc-backslash":
             doc = rng.choice(["a\\nb", "C:\\temp\\new", "ends with \\", "esc \\\" quote", "double \\\\ bs", "cont \\\nline",
-                              "\\x41", "\\N{DASH}", "\\u00e9", "oct \\101", "\\'"])
+                              "\\x41", "\\N{DASH}", "\\u00e9", "oct \\101", "\\'", "\\" * rng.randrange(1, 5) + "\"",
+                              "\\" * rng.randrange(1, 5), "q\"" + "\\" * rng.randrange(1, 4)])
+        elif kind == "doc-cr":
+            doc = rng.choice(["a\rb", "a\r\nb", "\r", "\r\n", "a\n\rb", "ends\r"])
         else:
-            doc = rng.choice(["a\rb", "a\r\nb", "\r"])
-        where = rng.choice(["model", "space", "lambda"])
-        if where == "model":
+            doc = rng.choice(BOUNDARY_DOCS + ["nul \0", "\0"])
+        ops.append(["cells", b, "one", "def one(x): return x", {}])
+        ops.append(["cells", b, "olddoc", "def olddoc(x):\n    'old doc'\n    return x", {}])
+        where = rng.choice(["model", "space", "lambda", "def", "def-oneline", "def-olddoc", "all"])
+        if where in ("model", "all"):
             ops.append(["doc", "", doc])
-        elif where == "space":
+        if where in ("space", "all"):
             ops.append(["doc", a, doc])
-        else:
+        if where in ("lambda", "all"):
             ops.append(["cdoc", a + "." + cn, doc])
+        if where in ("def", "all"):
+            ops.append(["cdoc", b + ".other", doc])
+        if where in ("def-oneline", "all"):
+            ops.append(["cdoc", b + ".one", doc])
+        if where in ("def-olddoc", "all"):
+            ops.append(["cdoc", b + ".olddoc", doc])
     elif kind == "doc-section-marker":
         ops.append(["allow_none", a, rng.choice([True, False])])
         ops.append(["doc", a, "first line\n" + SECTION_DIVIDER + "\n# Cells\nlast line"])
@@ -486,9 +533,11 @@ def gen_trigger(rng, kind):
     return {"ops": ops, "cfg": {"log_input": False, "keep_original": rng.random() < 0.5}}
 
 
+# small programs around one construct: the recorded findings, and the repaired ones (lambda-uncached,
+# lambda-empty-doc: 2afb524; doc-quote, doc-backslash, doc-cr, doc-line-boundary: 2b72506) as regressions
 TRIGGERS = ["lambda-uncached", "lambda-empty-doc", "refmode-noninterface", "derived-input",
-            "def-text-outside-node", "doc-quote", "doc-backslash", "doc-cr", "doc-section-marker",
-            "ref-override-order", "relref-override-order", "derived-member-stale"]
+            "def-text-outside-node", "doc-quote", "doc-backslash", "doc-cr", "doc-line-boundary",
+            "doc-section-marker", "ref-override-order", "relref-override-order", "derived-member-stale"]
 
 
 # =====================================================================================
@@ -790,37 +839,6 @@ def cache_snapshot(m):
 # 3. known defects of the unchanged tree, predicted field by field
 # =====================================================================================
 
-WILD = "<any>"
-
-
-def doc_reads_back(doc):
-    """does Python read '\"\"\"' + doc + '\"\"\"' as exactly doc?  (what the Lean model's SafeDoc decides
-    for its alphabet; here Python itself answers, for every character)"""
-    text = '"""' + doc + '"""'
-    if "\r" in doc:
-        return False
-    try:
-        with warnings.catch_warnings():
-            warnings.simplefilter("ignore")
-            toks = first_string_token(text)
-        if toks is None:
-            return False
-        value, rest = toks
-        return rest == "" and value == doc
-    except Exception:
-        return False
-
-
-def doc_key(doc):
-    if "\\" in doc:
-        return "C04-doc-backslash"
-    if '"""' in doc or doc.endswith('"'):
-        return "C04-doc-quote"
-    if "\r" in doc:
-        return "C04-doc-cr"
-    return None
-
-
 def def_source_after_read(src):
     """FunctionDefParser: the text of the def node as asttokens delimits it, plus the comment that
     follows on its last line; the Formula constructor then re-joins the lines and appends a newline"""
@@ -840,26 +858,17 @@ def def_source_after_read(src):
 
 def predict(desc):
     """-> (expected flat description after reading, {flat path: finding key}, values_comparable,
-    unsafe doc keys present)"""
+    keys of the known findings that make the read itself fail)
+
+    Documentation strings (model, space, lambda cells, def cells) and the flags of lambda cells are
+    NOT predicted: since 2b72506 / 2afb524 they must come back as they were."""
     exp = json.loads(json.dumps(desc))
     keys = {}
     values_ok = True
     unsafe = []
 
-    def doc_field(holder, path):
-        doc = holder["doc"]
-        if doc is not None and not doc_reads_back(doc):
-            k = doc_key(doc)
-            if k:
-                holder["doc"] = WILD
-                keys[path + ("doc",)] = k
-                unsafe.append(k)
-
-    doc_field(exp, ())
-
     def space(sd, path):
         nonlocal values_ok
-        doc_field(sd, path)
         doc = desc_at(desc, path)["doc"]
         if doc is not None and (SECTION_DIVIDER + "\n# Cells\n") in (doc + "\n") and sd["allow_none"] is not None:
             sd["allow_none"] = None
@@ -876,20 +885,7 @@ def predict(desc):
                     values_ok = False
                 continue
             src = cd["source"]
-            if src is not None and src.startswith("lambda"):
-                if cd["is_cached"] is False:
-                    cd["is_cached"] = True
-                    keys[cpath + ("is_cached",)] = "C04-lambda-uncached"
-                if cd["doc"] == "":
-                    cd["doc"] = None
-                    keys[cpath + ("doc",)] = "C04-lambda-empty-doc"
-                elif cd["doc"] is not None and not doc_reads_back(cd["doc"]):
-                    k = doc_key(cd["doc"])
-                    if k:
-                        cd["doc"] = WILD
-                        keys[cpath + ("doc",)] = k
-                        unsafe.append(k)
-            elif src is not None:
+            if src is not None and not src.startswith("lambda"):
                 try:
                     after = def_source_after_read(src)
                 except Exception:
@@ -1006,7 +1002,7 @@ def compare(desc0, actual, what, hist, out, stats):
             continue
         ee = fe.get(path)
         key = keys.get(path)
-        if key and (ee == aa or ee == json.dumps(WILD)):
+        if key and ee == aa:
             if key not in reported:
                 reported.add(key)
                 out.fail("%s: %s differs after reading (%s)" % (what, "/".join(path), key), hist,
@@ -1172,7 +1168,7 @@ def read_and_compare(path, label, desc0, vals0, hist, out, stats, name="M"):
     except Exception as e:
         k = err_kind(e)
         stats["read-error:" + k] = stats.get("read-error:" + k, 0) + 1
-        explained = [u for u in unsafe if not u.endswith("-override-order") or k == "Value"]
+        explained = [u for u in unsafe if k == "Value"]     # the two *-override-order findings raise ValueError
         if explained:
             out.fail("a model written without error cannot be read back from the %s (%s): %s" % (
                 label, k, explained[0]), hist, key=explained[0])
@@ -1399,13 +1395,40 @@ def run_paths(ctx, out, stats, n, salt="path"):
     return len(lines)
 
 
-DOC_ALPHABET = ['"', '"', '"', "\\", "\\", "\n", "\r", "n", "d", " ", "e", "#", "\u00e9", "{"]
-DOC_UNSUPPORTED = ["t", "x", "0", "'", "N", "u"]
+ESCAPE_KEYS = ["\\", "\0", "\r", "\x0b", "\x0c", "\x1c", "\x1d", "\x1e", "\x85", "\u2028", "\u2029"]
+DOC_ALPHABET = (['"'] * 6 + ["\\"] * 4 + ["\n", "\n", "n", "d", " ", "e", "#", "\u00e9", "{", "'", "x", "0", "u", "N", "r",
+                                          "\u2603", "\U0001F600", "\x7f", "\xa0", "\t", "\ufeff"] + ESCAPE_KEYS)
+# for arbitrary literal texts (the reader): no NUL (not a source character); hex digits and escape letters
+READ_ALPHABET = (['"'] * 4 + ["\\"] * 8 + list("abfnrtvxuN01789AaFfgGdeq{}' \n   ") +
+                 ["\r", "\r", "\n", "\u00e9", "\x0c", "\u2028", "\U0001F600"])
+
+
+def systematic_docs():
+    """every key of the escape table (alone, inside, first, last, before and after a quote), runs of 1..7
+    quotes at the start / in the middle / at the end / alone, 0..4 backslashes before a quote and at the
+    end, non-ASCII"""
+    res = ["", "a", "\n", "\u00e9", "\u2603\U0001F600", "'", "'" * 3, "'" * 6]
+    for k in ESCAPE_KEYS + ["\n"]:
+        res += [k, "a" + k + "b", k + "b", "a" + k, k + '"', '"' + k, '""' + k + '"', k * 3, k + "\n" + k]
+    for n in range(1, 8):
+        q = '"' * n
+        res += [q, q + "e", "s" + q, "m" + q + "m", q + "m" + q, "s" + q + "\n", "\\" + q, q + "\\", "a" + q + "\\" + q]
+    for n in range(0, 5):
+        bs = "\\" * n
+        res += [bs, "a" + bs, bs + '"', "a" + bs + '"', bs + '"b', bs + '""', bs + '"' * 3, bs + "n", bs + "\n",
+                bs + "x41", bs + "u2028", bs + "N{DASH}", bs + "101", bs + "\r\n"]
+    res += ["".join(ESCAPE_KEYS), "".join(reversed(ESCAPE_KEYS)) + '"', '"' + "".join(ESCAPE_KEYS)]
+    return res
+
+
+def random_doc(rng):
+    ln = rng.choice([0, 1, 2, 3, 4, 5, 6, 8, 12, 20])
+    return "".join(_pick(rng, DOC_ALPHABET) for _ in range(ln))
 
 
 def first_string_token(text):
     """Python's tokenizer on `text` (read the way modelx reads files: universal newlines):
-    -> (value of the first token if it is a string literal, rest of the text) or None"""
+    -> (text of the first token if it is a string literal, rest of the text) or None"""
     norm = io.StringIO(text, newline=None).read()
     gen = tokenize.generate_tokens(io.StringIO(norm).readline)
     try:
@@ -1416,69 +1439,186 @@ def first_string_token(text):
         return None
     if not norm.startswith(tok.string):
         raise core.Infra("tokenizer returned a token that is not a prefix of the text: %r / %r" % (tok.string, norm))
-    with warnings.catch_warnings():
-        warnings.simplefilter("ignore")
-        value = ast.literal_eval(tok.string)
     # (tok.end is not used: for multi-line tokens with non-ASCII text its column is not a character index)
-    return value, norm[len(tok.string):]
+    return tok.string, norm[len(tok.string):]
+
+
+def literal_value(tokstr):
+    """value of a string token, or None when Python rejects its escapes"""
+    try:
+        with warnings.catch_warnings():
+            warnings.simplefilter("ignore")
+            return ast.literal_eval(tokstr)
+    except (SyntaxError, ValueError):
+        return None
+
+
+def uses_named_escape(body):
+    i = 0
+    while i < len(body) - 1:
+        if body[i] == "\\":
+            if body[i + 1] == "N":
+                return True
+            i += 2
+        else:
+            i += 1
+    return False
+
+
+def has_surrogate(s):
+    return any(0xD800 <= ord(c) <= 0xDFFF for c in s)
+
+
+def doc_oracle(doc, with_formula=False):
+    """The property on the implementation alone: what the real `quote_docstring` writes for `doc`, read
+    the way the serializer's reader reads it, is `doc`.  -> None or a sentence saying what failed."""
+    lit = quote_docstring(doc)
+    # (a) text file, universal newlines, tokenizer: one token, nothing swallowed, value = doc
+    tail = "\nx = 1\n"
+    r = first_string_token(lit + tail)
+    if r is None:
+        return "quote_docstring(doc) is not a string token"
+    tokstr, rest = r
+    if tokstr != lit or rest != tail:
+        return "the token of quote_docstring(doc) ends elsewhere than the text does"
+    if literal_value(tokstr) != doc:
+        return "ast.literal_eval(token of quote_docstring(doc)) != doc (lambda cells docs are read this way)"
+    # (b) as the first statement of a module (model and space docs are read this way)
+    try:
+        with warnings.catch_warnings():
+            warnings.simplefilter("ignore")
+            tree = ast.parse(io.StringIO(lit + tail, newline=None).read())
+        got = tree.body[0].value.value
+    except Exception as e:
+        return "ast.parse rejects a file starting with quote_docstring(doc) (%s)" % err_kind(e)
+    if got != doc:
+        return "ast.parse reads the module docstring quote_docstring(doc) as another text"
+    # (c) nothing in it that the line re-join of a def's source alters
+    if "\n".join(lit.splitlines()) != lit:
+        return "quote_docstring(doc) is altered by '\\n'.join(text.splitlines())"
+    # (d) as the docstring of a def, through the Formula constructor (def cells are read this way).
+    # Formula() passes the source through textwrap.dedent, which empties the lines of a def that hold
+    # only blanks and tabs - also inside its docstring (what set_doc then reports is C20's subject).  A
+    # def cells of a live model has been through it already, so the round trip needs: the docstring is
+    # doc up to that, and constructing the Formula again from its source changes nothing.
+    if with_formula:
+        parts = doc.split("\n")     # the first and the last line share a source line with the quotes
+        want = doc if len(parts) < 2 else "\n".join(
+            parts[:1] + ["" if re.fullmatch(r"[ \t]+", p) else p for p in parts[1:-1]] + parts[-1:])
+        for src in ("def f(x):\n    %s\n    return x\n" % lit, "def f(x): %s; return x" % lit):
+            try:
+                with warnings.catch_warnings():
+                    warnings.simplefilter("ignore")
+                    f = Formula(src, name="f")
+                    f2 = Formula(f.source, name="f")
+            except Exception as e:
+                return "Formula rejects a def whose docstring is quote_docstring(doc) (%s)" % err_kind(e)
+            if f.func.__doc__ != want:
+                return "a def whose docstring is quote_docstring(doc) has another __doc__ after Formula()"
+            if f2.source != f.source or f2.func.__doc__ != f.func.__doc__:
+                return "Formula(Formula(def).source) differs from Formula(def): a def cells would change when read back"
+    return None
 
 
 def run_docs(ctx, out, stats, n, salt="doc"):
     lines, expect, hist = [], [], []
+
+    def bump(k):
+        stats[k] = stats.get(k, 0) + 1
+
+    # ---- writer: quote_docstring against the model, and the property on the implementation
+    docs = [(d, True) for d in systematic_docs() + DOCS + BOUNDARY_DOCS]
     for i in range(n):
         rng = ctx.rng(salt, i)
-        ln = rng.choice([0, 1, 2, 3, 4, 5, 6, 8])
-        alphabet = DOC_ALPHABET + (DOC_UNSUPPORTED if rng.random() < 0.1 else [])
-        doc = "".join(_pick(rng, alphabet) for _ in range(ln))
-        text = '"""' + doc + '"""'
-        unsupported = any(c in DOC_UNSUPPORTED + ["a", "b", "f", "r", "v"] for c in doc)
-        # what Python makes of the written statement
-        try:
-            r = first_string_token(text)
-        except Exception:
-            r = None
-        if unsupported:
-            exp_doc, exp_lex = "unsupported", "unsupported"
-        elif r is None:
-            exp_doc, exp_lex = "unreadable", "unterminated"
-        else:
-            value, rest = r
-            exp_lex = "ok %s %s" % (enc_str(value), enc_str(rest))
-            if rest != "":
-                exp_doc = "unreadable"
-            elif value == doc:
-                exp_doc = "same"
-            else:
-                exp_doc = "changed " + enc_str(value)
+        docs.append((random_doc(rng), i % 10 == 0))
+    for doc, with_formula in docs:
+        lit = quote_docstring(doc)
+        lines.append("quote " + enc_str(doc))
+        expect.append("ok " + enc_str(lit))
+        hist.append(["quote", doc])
+        why = doc_oracle(doc, with_formula)
+        if why:
+            out.fail("docstring codec: " + why, [["quote", doc]], detail={"doc": doc, "written": lit})
         lines.append("doc " + enc_str(doc))
-        expect.append(exp_doc)
-        hist.append(["doc", doc])
+        expect.append("same" if not why else "?")
+        hist.append(["quote", doc])
+        bump("doc:written")
+        if any(c in doc for c in ESCAPE_KEYS):
+            bump("doc:with-escape-table-char")
+        if '"' * 3 in doc or doc.endswith('"'):
+            bump("doc:with-closing-quotes")
+        if "\\" in doc:
+            bump("doc:with-backslash")
+
+    # ---- reader: arbitrary triple-quoted texts (also what the un-escaped writer used to produce)
+    for i in range(n):
+        rng = ctx.rng(salt, "read", i)
+        ln = rng.choice([0, 1, 2, 3, 4, 5, 6, 8, 12])
+        body = "".join(_pick(rng, READ_ALPHABET) for _ in range(ln))
+        r = rng.random()
+        if r < 0.15:
+            body = random_doc(rng).replace("\0", "")       # '"""' + doc + '"""', the former writer
+        elif r < 0.3:
+            k = rng.choice(["x", "u", "U", ""])            # well-formed numeric escapes
+            digits = {"x": 2, "u": 4, "U": 8, "": rng.randrange(1, 4)}[k]
+            pool = "01234567" if k == "" else "0123456789abcdefABCDEF"
+            val = "".join(rng.choice(pool) for _ in range(digits))
+            if k == "U":
+                val = "000" + rng.choice("01") + val[4:]
+            body = body[:ln // 2] + "\\" + k + val + body[ln // 2:]
+        text = '"' * 3 + body + '"' * 3 + rng.choice([""] * 12 + ["\n", '"', " x", "\nx = 1\r\n"])
+        try:
+            tok = first_string_token(text)
+        except core.Infra:
+            raise
+        except Exception:
+            tok = None
+        if tok is None:
+            exp_lex, exp_read = "unterminated", "unreadable"
+        else:
+            tokstr, rest = tok
+            exp_lex = "ok %s %s" % (enc_str(tokstr[3:-3]), enc_str(rest))
+            if rest != "":
+                exp_read = "unreadable"
+            elif uses_named_escape(tokstr[3:-3]):
+                exp_read = "unsupported"
+            else:
+                v = literal_value(tokstr)
+                if v is None:
+                    exp_read = "unreadable"
+                elif has_surrogate(v):
+                    exp_read = "unreadable"                 # the model does not cover surrogate code points
+                    bump("doc:read-surrogate-not-modelled")
+                else:
+                    exp_read = "ok " + enc_str(v)
         lines.append("lex " + enc_str(text))
         expect.append(exp_lex)
         hist.append(["lex", text])
-        stats["doc:" + exp_doc.split(" ")[0]] = stats.get("doc:" + exp_doc.split(" ")[0], 0) + 1
-        # the whole statement through ast.literal_eval: where the model says the text is one literal,
-        # literal_eval gives the model's value
-        if not unsupported and r is not None and r[1] == "":
-            try:
-                with warnings.catch_warnings():
-                    warnings.simplefilter("ignore")
-                    whole = ast.literal_eval(text)
-            except Exception:
-                whole = None
-            if whole != r[0].replace("\r\n", "\n").replace("\r", "\n"):
-                out.fail("tokenizer and ast.literal_eval disagree on %r" % text, [["doc", doc]])
+        lines.append("read " + enc_str(text))
+        expect.append(exp_read)
+        hist.append(["read", text])
+        bump("doc:read:" + exp_read.split(" ")[0])
+        if tok is None:
+            bump("doc:read:unterminated")
+        elif tok[1] != "":
+            bump("doc:read:text-after-the-token")
+
+    # ---- "\n".join(text.splitlines())
+    for i in range(n // 4):
+        rng = ctx.rng(salt, "sj", i)
+        ln = rng.choice([0, 1, 2, 3, 4, 6, 9])
+        text = "".join(rng.choice(["a", "b", " ", "\n", "\n", "\r", "\r", '"'] + LINE_BOUNDARIES) for _ in range(ln))
+        lines.append("sj " + enc_str(text))
+        expect.append("ok " + enc_str("\n".join(text.splitlines())))
+        hist.append(["splitlines-join", text])
+
     got = core.run_driver("codec", lines)
     for j, (a, b) in enumerate(zip(expect, got)):
-        b2 = b.split(" safe=")[0]
-        if a.rstrip() != b2.rstrip():
+        if a == "?":
+            continue                                        # the oracle already failed on this doc
+        if a.rstrip() != b.rstrip():
             out.disagree([hist[j]], 0, a, b, layer="codec")
             break
-        if " safe=" in b:
-            safe = b.endswith("safe=1")
-            if safe != (b2 == "same"):
-                out.disagree([hist[j]], 0, a, b + " (SafeDoc does not match the outcome)", layer="codec")
-                break
     return len(lines)
 
 
@@ -1572,14 +1712,10 @@ def replay(ctx, payload, out):
             if item[0] == "abs_to_rel":
                 if rel_to_abs(abs_to_rel(item[1], item[2]), item[2]) != item[1]:
                     out.fail("rel_to_abs(abs_to_rel(t, ns), ns) != t", [item])
-            elif item[0] == "doc":
-                text = '"""' + item[1] + '"""'
-                r = first_string_token(text)
-                if r is not None and r[1] == "":
-                    with warnings.catch_warnings():
-                        warnings.simplefilter("ignore")
-                        if ast.literal_eval(text) != r[0]:
-                            out.fail("tokenizer and ast.literal_eval disagree on %r" % text, [item])
+            elif item[0] == "quote":
+                why = doc_oracle(item[1], True)
+                if why:
+                    out.fail("docstring codec: " + why, [item])
             elif item[0] == "abs_to_rel_tuple":
                 t = tuple(ast.literal_eval(x) for x in item[1])
                 s = tuple(ast.literal_eval(x) for x in item[2])
